@@ -357,4 +357,108 @@ theorem C12_chars_empty_loop (o : Opts) (cs : List Chunk) (preB postB : List Blo
   rw [h, denote_plain, denoteItems_append, pruneC_empty_loop]
   rwa [denoteItems_append] at hpk
 
+
+/-! ### the item-level classes of Props/C12Lex (group gH) -/
+
+/-- **C12_chars_unexpected_delim** — a closing bracket or brace where an item is expected (not directly behind a loop).  One report,
+    CIF_UNEXPECTED_DELIM; the content is that of the document without it. -/
+theorem C12_chars_unexpected_delim (o : Opts) (cs : List Chunk) (preB postB : List Block) (bc : Str) (pre post : List Item)
+    (ty : TokType) (tx : Str) (seen2 : List Str) (H : ItemHost o cs preB postB bc pre post [(ty, tx)])
+    (hty : ty = .clist ∨ ty = .ctable) (hnoloop : lastIsLoop pre = false) (hpost : wfItems o post seen2 = true)
+    (hseen2 : ∀ k ∈ normNames o (denoteItems o.dia o.normKey pre []), k ∈ seen2) :
+    OneReport o cs CIF_UNEXPECTED_DELIM (preB ++ [plainBlock bc (pre ++ post)] ++ postB) :=
+  items_class_doc H _ CIF_UNEXPECTED_DELIM 0 (by simp)
+    (by simpa using allPacked_run o pre post [] seen2 H.wfRun hpost (fun _ h => h))
+    (fun hv rest1 s1 w1 f hw1 hf hfol hF1 =>
+      have hterm := blockFollow_term hfol
+      C12_unexpected_delim o hv pre post ty tx [] seen2 rest1 s1 f w1 [] [] true hw1 hty H.wfRun (nil_seen o) hnoloop hpost hseen2
+        (by omega) (fun _ => hterm) hF1)
+
+/-- **C12_chars_unexpected_term** — `save_` in a data block while no save frame is open.  One report, CIF_UNEXPECTED_TERM; the
+    content is that of the document without it. -/
+theorem C12_chars_unexpected_term (o : Opts) (cs : List Chunk) (preB postB : List Block) (bc : Str) (pre post : List Item)
+    (tx : Str) (seen2 : List Str) (H : ItemHost o cs preB postB bc pre post [(.frameTerm, tx)])
+    (hpost : wfItems o post seen2 = true)
+    (hseen2 : ∀ k ∈ normNames o (denoteItems o.dia o.normKey pre []), k ∈ seen2) :
+    OneReport o cs CIF_UNEXPECTED_TERM (preB ++ [plainBlock bc (pre ++ post)] ++ postB) :=
+  items_class_doc H _ CIF_UNEXPECTED_TERM 0 (by simp)
+    (by simpa using allPacked_run o pre post [] seen2 H.wfRun hpost (fun _ h => h))
+    (fun hv rest1 s1 w1 f hw1 hf hfol hF1 =>
+      have hterm := blockFollow_term hfol
+      C12_unexpected_term o hv pre post tx [] seen2 rest1 s1 f w1 [] [] hw1 H.wfRun (nil_seen o) hpost hseen2
+        (by omega) (fun _ => hterm) hF1)
+
+/-- **C12_chars_null_loop** — `loop_` that is not followed by a data name: the next token is `loop_`, a block header, or the end
+    of the input.  One report, CIF_NULL_LOOP; the content is that of the document without it. -/
+theorem C12_chars_null_loop (o : Opts) (cs : List Chunk) (preB postB : List Block) (bc : Str) (pre post : List Item)
+    (seen2 : List Str) (H : ItemHost o cs preB postB bc pre post [(.loopKw, [])])
+    (hpost : wfItems o post seen2 = true)
+    (hseen2 : ∀ k ∈ normNames o (denoteItems o.dia o.normKey pre []), k ∈ seen2)
+    (hnext : ∀ i r, post = i :: r → ∃ ms ps, i = .loop ms ps) :
+    OneReport o cs CIF_NULL_LOOP (preB ++ [plainBlock bc (pre ++ post)] ++ postB) :=
+  items_class_doc H _ CIF_NULL_LOOP 1 (by simp)
+    (by simpa using allPacked_run o pre post [] seen2 H.wfRun hpost (fun _ h => h))
+    (fun hv rest1 s1 w1 f hw1 hf hfol hF1 =>
+      have hterm := blockFollow_term hfol
+      C12_null_loop o hv pre post [] seen2 rest1 s1 f w1 [] [] true hw1 H.wfRun (nil_seen o) hpost hseen2 (by omega)
+        (by
+          cases post with
+          | nil =>
+            obtain ⟨ty, tx, ts, rfl, ht⟩ := hfol
+            refine ⟨ty, tx, ts, rfl, ?_⟩
+            rcases ht with h | h <;> subst h <;> decide
+          | cons i r0 =>
+            obtain ⟨ms, ps, rfl⟩ := hnext i r0 rfl
+            exact ⟨.loopKw, [], ms.map (fun n => (TokType.name, n)) ++ (packetsToks ps ++ (itemsToks r0 ++ rest1)),
+              by simp [itemsToks, itemToks], by decide⟩)
+        (fun _ => hterm) hF1)
+
+/-- **C12_chars_invalid_itemname** — a data name that is not a valid item name, with its value.  One report,
+    CIF_INVALID_ITEMNAME; the content is that of the document without the item. -/
+theorem C12_chars_invalid_itemname (o : Opts) (cs : List Chunk) (preB postB : List Block) (bc : Str) (pre post : List Item)
+    (n : Str) (v : Val) (seen2 : List Str) (H : ItemHost o cs preB postB bc pre post ((.name, n) :: valToks v))
+    (hn0 : noNul n = true) (hinv : isValidName true n = false) (hwv : wfVal o v = true) (hpost : wfItems o post seen2 = true)
+    (hseen2 : ∀ k ∈ normNames o (denoteItems o.dia o.normKey pre []), k ∈ seen2) :
+    OneReport o cs CIF_INVALID_ITEMNAME (preB ++ [plainBlock bc (pre ++ post)] ++ postB) :=
+  items_class_doc H _ CIF_INVALID_ITEMNAME (szVal v) (by rw [Lemmas.WriterChunks.szVal_toks]; simp only [List.length_cons]; omega)
+    (by simpa using allPacked_run o pre post [] seen2 H.wfRun hpost (fun _ h => h))
+    (fun hv rest1 s1 w1 f hw1 hf hfol hF1 =>
+      have hterm := blockFollow_term hfol
+      C12_invalid_itemname o hv pre post n v [] seen2 rest1 s1 f w1 [] [] true hw1 H.wfRun (nil_seen o) hn0 hinv hwv hpost hseen2
+        (by omega) (fun _ => hterm) hF1)
+
+/-- **C12_chars_missing_delim_list** — a list (elements of any kind and depth) whose closing bracket is missing, as the value of an
+    item.  One report, CIF_MISSING_DELIM; the content is that of the document with the bracket in front of the token that cannot
+    continue the list. -/
+theorem C12_chars_missing_delim_list (o : Opts) (cs : List Chunk) (preB postB : List Block) (bc : Str) (pre post : List Item)
+    (n btx : Str) (vs : List Val) (seen2 : List Str)
+    (H : ItemHost o cs preB postB bc pre post ((.name, n) :: (.olist, btx) :: valsToks vs))
+    (hname : wfName n = true) (hfresh : o.norm n ∉ normNames o (denoteItems o.dia o.normKey pre []))
+    (hwv : wfVals o vs = true) (hpost : wfItems o post seen2 = true)
+    (hseen2 : ∀ k ∈ normNames o (denoteItems o.dia o.normKey (pre ++ [.item n (.lst vs)]) []), k ∈ seen2) :
+    OneReport o cs CIF_MISSING_DELIM (preB ++ [plainBlock bc (pre ++ [.item n (.lst vs)] ++ post)] ++ postB) :=
+  items_class_doc H _ CIF_MISSING_DELIM (szVals vs + 2) (by rw [Lemmas.WriterChunks.szVals_toks]; simp only [List.length_cons]; omega)
+    (allPacked_run o pre post _ seen2 H.wfRun hpost (allPacked_item o n _))
+    (fun hv rest1 s1 w1 f hw1 hf hfol hF1 =>
+      have hterm := blockFollow_term hfol
+      C12_missing_delim_list o hv pre post n btx vs [] seen2 rest1 s1 f w1 [] [] true hw1 H.wfRun (nil_seen o) hname hfresh hwv hpost
+        hseen2 (by omega) (Or.inr hterm) (fun _ => hterm) hF1)
+
+/-- **C12_chars_missing_delim_table** — a table whose closing brace is missing, as the value of an item.  One report,
+    CIF_MISSING_DELIM; the content is that of the document with the brace. -/
+theorem C12_chars_missing_delim_table (o : Opts) (cs : List Chunk) (preB postB : List Block) (bc : Str) (pre post : List Item)
+    (n btx : Str) (es : List (Str × Presentation × Val)) (seen2 : List Str)
+    (H : ItemHost o cs preB postB bc pre post ((.name, n) :: (.otable, btx) :: entriesToks es))
+    (hname : wfName n = true) (hfresh : o.norm n ∉ normNames o (denoteItems o.dia o.normKey pre []))
+    (hwv : wfEntries o es = true) (hpost : wfItems o post seen2 = true)
+    (hseen2 : ∀ k ∈ normNames o (denoteItems o.dia o.normKey (pre ++ [.item n (.tbl es)]) []), k ∈ seen2) :
+    OneReport o cs CIF_MISSING_DELIM (preB ++ [plainBlock bc (pre ++ [.item n (.tbl es)] ++ post)] ++ postB) :=
+  items_class_doc H _ CIF_MISSING_DELIM (szEntries es + 2)
+    (by rw [Lemmas.WriterChunks.szEntries_toks]; simp only [List.length_cons]; omega)
+    (allPacked_run o pre post _ seen2 H.wfRun hpost (allPacked_item o n _))
+    (fun hv rest1 s1 w1 f hw1 hf hfol hF1 =>
+      have hterm := blockFollow_term hfol
+      C12_missing_delim_table o hv pre post n btx es [] seen2 rest1 s1 f w1 [] [] true hw1 H.wfRun (nil_seen o) hname hfresh hwv hpost
+        hseen2 (by omega) (Or.inr hterm) (fun _ => hterm) hF1)
+
 end CifModel.Props
